@@ -200,6 +200,7 @@ def run(ctx):
     import c07
     c07.new_line_table(ctx, "R17-d", only_gate=True)
     hull_guards(ctx, "R17-e")
+    lookup_key_is_canonical(ctx, "R17-f")
 
 
 def hull_guards(ctx, rid):
@@ -237,3 +238,47 @@ def hull_guards(ctx, rid):
                             % (sorted({short(x.name).rsplit("::", 1)[-1] for x in comb}), sorted({short(x.name).rsplit("::", 1)[-1] for x in elem})),
                             [c.loc()])
     r.floor(rid, n, 4, "file-lines span lookups")
+
+
+def lookup_key_is_canonical(ctx, rid):
+    """R17-f: ranges are looked up under the same kind of key they were stored under"""
+    p, r = ctx.p, ctx.r
+    r.rule(rid, "config::file_lines: the ranges given on the command line are stored under canonicalize_path_string(file) "
+                "(JsonSpan::into_tuple); FileLines::file_range_matches therefore reaches its map lookup only with a key that is the "
+                "result of canonicalize_path_string on the queried name, on every path (helpers inlined): a file whose session name "
+                "is absolute but not canonical (`#[path = \"../x.rs\"]`, a symlinked directory) must still find its ranges")
+    f = p.named("file_range_matches", within="file_lines::FileLines")
+    ins = p.named("into_tuple", within="file_lines::JsonSpan")
+    if f is None or ins is None:
+        r.undecidable(rid, "file_range_matches / JsonSpan::into_tuple not found")
+        return
+    stored_canonical = any(c.name.endswith("canonicalize_path_string") for c in ins.calls())
+    r.instance(rid, "JsonSpan::into_tuple stores canonical keys", "ok" if stored_canonical else "info", "%s:%d" % (ins.file, ins.line),
+               nontrivial=False)
+    if not stored_canonical:
+        r.note("R17-f: keys are not canonicalised at insertion; the lookup side is not constrained")
+        r.rules[rid]["floor"] = 0
+        return
+
+    def helper(c):
+        h = p.fns.get(c.resolved or "")
+        return h is not None and h.crate == "rustfmt_nightly" and "file_lines" in h.id and not h.id.endswith("canonicalize_path_string")
+    try:
+        paths = explore(f, pure=lambda c: not helper(c), program=p, inline=helper, max_paths=20000)
+    except TooManyPaths as e:
+        r.undecidable(rid, str(e))
+        return
+    r.paths(rid, len(paths))
+    n = 0
+    for path in paths:
+        for k, v in path.decisions:
+            if "and_then(" in k or "HashMap" in k and "::get(" in k:
+                n += 1
+                ok = "canonicalize_path_string(" in k
+                r.instance(rid, "file_range_matches lookup key", "ok" if ok else "violation", "%s:%d" % (f.file, f.line), short(k)[:90])
+                if not ok:
+                    r.violation(rid, "file_range_matches looks ranges up under a key that is not canonicalised",
+                                "on a path the map is queried with %s, while the keys were stored canonicalised: the file's "
+                                "selected lines are not found — they stay unformatted and get no diagnostics" % short(k)[:100],
+                                ["%s:%d" % (f.file, f.line)])
+    r.floor(rid, n, 1, "lookup decisions in file_range_matches")
